@@ -780,13 +780,25 @@ func TestVerifC02Mux(t *testing.T) {
 		sr := r.Fork()
 		done := make(chan error, 1)
 		go func() { done <- s.run(sr) }()
+		// a session that fails or hangs (it cannot on the unchanged tree) is still written out, marked
+		// cfg+10, with the events recorded so far: the monitor judges its Reads, the test fails afterwards
+		aborted := ""
 		select {
 		case err := <-done:
 			if err != nil {
-				t.Fatalf("session %d: %v\n%s", i, err, s.dump())
+				aborted = fmt.Sprintf("session %d: %v\n%s", i, err, s.dump())
 			}
-		case <-time.After(120 * time.Second):
-			t.Fatalf("session %d hangs\n%s", i, s.dump())
+		case <-time.After(60 * time.Second):
+			aborted = fmt.Sprintf("session %d hangs\n%s", i, s.dump())
+		}
+		// (a hung scheduler may hold s.mu inside a blocked Read: then nothing else can append to the log either)
+		if s.mu.TryLock() {
+			s.frozen = true
+			s.mu.Unlock()
+		}
+		if aborted != "" {
+			cfg += 10
+			out.Cover("mux.sessions_aborted")
 		}
 
 		line := []int64{7, int64(cfg), int64(len(sts))}
@@ -804,6 +816,10 @@ func TestVerifC02Mux(t *testing.T) {
 		out.Case(line)
 		if len(line) > maxInts {
 			maxInts = len(line)
+		}
+		if aborted != "" {
+			t.Errorf("%s", aborted)
+			break
 		}
 
 		// what was reached
